@@ -23,7 +23,7 @@ LEVEL = "model_checking"
 PINS = Path(__file__).resolve().parent.parent.parent / "corpus" / "c13_pins.json"
 ABSROOT = "/T/"  # stands for the target directory in the specification; the run uses the real one
 
-SPELL = ("rel", "glob", "abs")
+SPELL = ("rel", "glob", "abs", "mixed")  # mixed: the lines of one file are named by patterns of different spellings
 
 
 def _subsets(xs):
@@ -69,13 +69,17 @@ def build_runs(cid: str, seed, site, quick: bool, rng, uid: int):
             e_lines = [lines[i] for i in E]
             i_lines = [lines[i] for i in I]
             metas[rel] = {"sites": lines, "E": e_lines, "I": i_lines, "spelling": sp, "kind": kind}
-            for ln in e_lines:
-                exc.append((rel, ln, sp))
+            cyc = ("abs", "rel", "glob")
+            for j, ln in enumerate(e_lines):
+                exc.append((rel, ln, cyc[j % 3] if sp == "mixed" else sp))
             # an include pattern also selects the file, by its path relative to the target (C05): the absolute
             # spelling is therefore only generated for exclude patterns
             isp = "rel" if sp == "abs" else sp
-            for ln in i_lines:
-                inc.append((rel, ln, isp))
+            icyc = ("glob", "rel")
+            for j, ln in enumerate(i_lines):
+                inc.append((rel, ln, icyc[j % 2] if sp == "mixed" else isp))
+            if sp == "mixed":
+                isp = "rel"
             if kind != "exc" and not i_lines:
                 inc.append((rel, None, isp))
 
@@ -98,6 +102,25 @@ def build_runs(cid: str, seed, site, quick: bool, rng, uid: int):
             variants = rest[:11] + ctl
         for E, I, sp in variants:
             add(E, I, sp)
+        # the same file name at two levels: a relative pattern names the path from the target, so it concerns the
+        # top-level file only; and a glob that has to cross several directories
+        text, lines = progs[0]
+        t1, t2, deep = f"twin{uid}{kind[0]}.py", f"pkg/twin{uid}{kind[0]}.py", f"src/app/core/deep{uid}{kind[0]}.py"
+        for rel in (t1, t2, deep):
+            files[rel] = text + ("\n" if not text.endswith("\n") else "")
+        if kind == "exc":
+            metas[t1] = {"sites": lines, "E": [lines[0]], "I": [], "spelling": "rel-twin", "kind": kind}
+            metas[t2] = {"sites": lines, "E": [], "I": [], "spelling": "rel-twin-other-level", "kind": kind}
+            metas[deep] = {"sites": lines, "E": [lines[1]], "I": [], "spelling": "deep-glob", "kind": kind}
+            exc.append((t1, lines[0], "rel"))
+            exc.append((f"src/**/deep{uid}{kind[0]}.py", lines[1], "rel"))
+        else:
+            metas[t1] = {"sites": lines, "E": [], "I": [lines[0]], "spelling": "rel-twin", "kind": kind}
+            metas[t2] = {"sites": lines, "E": [], "I": [lines[2]], "spelling": "rel-twin-other-level", "kind": kind}
+            metas[deep] = {"sites": lines, "E": [], "I": [lines[1]], "spelling": "deep-glob", "kind": kind}
+            inc.append((t1, lines[0], "rel"))
+            inc.append((t2, lines[2], "rel"))
+            inc.append((f"src/**/deep{uid}{kind[0]}.py", lines[1], "rel"))
 
         def render(lst, real):
             return [(rel if ln is None else _pattern(rel, ln, sp, real)) for rel, ln, sp in lst]
